@@ -26,6 +26,8 @@ T_Write1   == /\ IsEv("w_write1")
               /\ W_Write1(Rec[l].b)
               /\ Chk(res' = Rec[l].res, "S:write-count")
 T_Flush    == IsEv("w_flush") /\ W_Flush /\ ResIs /\ SnapOk
+\* flush of a device too large to snapshot (traces of the repository's own tests)
+T_FlushNoSnap == IsEv("w_flush_nosnap") /\ W_Flush /\ ResIs
 \* seek and size are flush points of the CURRENT implementation only; the property fixes the
 \* device content at flush/drop, so no snapshot is compared here (a lazily flushing seek is fine)
 T_Seek     == IsEv("w_seek") /\ W_Seek(Rec[l].pos) /\ ResIs
@@ -42,7 +44,7 @@ T_RRead == /\ IsEv("r_read") /\ R_Read(Rec[l].n)
                 /\ Chk(Rec[l].res.ok = res'.ok, "P:read-bytes")
 T_RAlign == IsEv("r_align") /\ R_Align /\ ResIs
 
-TNext == \/ T_Reset \/ T_WriteAll \/ T_Write1 \/ T_Flush \/ T_Seek \/ T_Pos \/ T_Size \/ T_Align
+TNext == \/ T_Reset \/ T_WriteAll \/ T_Write1 \/ T_Flush \/ T_FlushNoSnap \/ T_Seek \/ T_Pos \/ T_Size \/ T_Align
          \/ T_ROpen \/ T_RSeek \/ T_RRead \/ T_RAlign
 
 TSpec == TInit /\ [][TNext]_<<pvars, l>>
